@@ -176,3 +176,27 @@ func IsMaintenanceMethod(method string) bool {
 	_, maintenanceMethod := maintenanceMethods[method]
 	return maintenanceMethod
 }
+
+// maintenance methods that modify the content of the selected database
+var writeMaintenanceMethods = map[string]struct{}{
+	"CreateCollection": {},
+	"UpdateCollection": {},
+	"DeleteCollection": {},
+	"AddField":         {},
+	"RemoveField":      {},
+	"CreateIndex":      {},
+	"DeleteIndex":      {},
+	"InsertDocuments":  {},
+	"ReplaceDocuments": {},
+	"DeleteDocuments":  {},
+}
+
+// IsSystemDBMethod reports whether method may be used on the system database:
+// systemdb is read-only from external access, so only the maintenance methods
+// that do not modify the selected database qualify
+func IsSystemDBMethod(method string) bool {
+	if _, isWrite := writeMaintenanceMethods[method]; isWrite {
+		return false
+	}
+	return IsMaintenanceMethod(method)
+}
